@@ -755,6 +755,7 @@ func (s *IndexedState) findRules(ctx *Context, event Map) (map[string]Map, error
 	}
 	ids := ss.Array()
 	now := NowSecs()
+	purged := false
 
 	for _, id := range ids {
 		rule, ok := s.IdToFact[id]
@@ -766,6 +767,13 @@ func (s *IndexedState) findRules(ctx *Context, event Map) (map[string]Map, error
 		}
 		if expired {
 			Log(ERROR, ctx, "IndexedState.FindRules", "expired", expired, "ruleId", id, "rule", rule)
+			purged = true
+			continue
+		}
+
+		if !ok && purged {
+			// An expired candidate (above) took this one, which
+			// named it in 'deleteWith', along.
 			continue
 		}
 
